@@ -232,6 +232,7 @@ EXTRA_FUZZ = [('bounded-pipeline-fuzz', _fuzz)]
 
 _KEYLESS = ('bounded-keyless-snapshots', _mk('keyless_snapshots', '28 stage constructions over list-backed (key-less) inputs of 0,1,3 (0..4) examples: items() is refused with ItemsNotDefined (never another exception), from_dataset(ds) and new(ds) deliver the examples of one iteration'))
 
+_VIEWS = ('bounded-views-alignment', _mk('views_alignment', 'selections by int64 / int32 array, list, key list, one-time shuffle, sort, shard, groupby group, frozen copy of a reshuffle (plain and below a map) over 1, 3, 6 keyed examples, keys() asked first or not: keys / items / iteration / integer and key lookup aligned and unchanged after the caller changed the index object in place and the parent went on reshuffling'))
 _CATCH_MATRIX = ('bounded-prefetch-catch-matrix', _mk('prefetch_catch_matrix', 'prefetch(w, b, catch_filter_exception=sel), sel in {True, FilterException, A, (A, KeyError)}, w in {1, 2}, values and items, 5 (7) examples (one of them None), every subset of up to 2 raising positions with FilterException / its subclass / A / its subclass / KeyError / ValueError: exactly the selected ones are omitted, the first other one arrives after all that precede it'))
 
 EXTRA_MORE = {
@@ -243,21 +244,21 @@ EXTRA_MORE = {
     'C04': [_CATCH_MATRIX, ('bounded-prefetch-fuzz', _fuzz_prefetch_determinism), ('bounded-parallel-equals-sequential', _mk('parallel_equals_sequential', 'thread backend; n in {0,1,2,5,9} (.. 12), workers 1..2 (3), buffers 1,2,4 (1..7); map(num_workers), prefetch, seeded reshuffle / shared-reshuffle tile below prefetch, stacked; values and items; 3 epochs; lengths'))],
     'C11': [('bounded-diskcache-kill-points', _mk('diskcache_kill_points', 'a forked child populating 12 examples is killed (SIGKILL) after 0, 20, 50, 90 ms (0..150 ms in 10 ms steps); reopen with reuse=True: all values correct, stored ones not recomputed')),
             ('bounded-diskcache-lifecycles', _mk('diskcache_lifecycles', 'cache_dir given / None x clear x {copy outlives original, original outlives copy, no copy} x {0, 2, all of 4 examples read}; release by garbage collection; reopen with reuse=False (refused) and reuse=True (no recomputation)'))],
-    'C13': [('bounded-determinism-fuzz', _fuzz_determinism), ('bounded-prefetch-determinism', _mk('parallel_equals_sequential', 'as for C04: seeded per-epoch reshuffles below prefetch / parallel map reproduce the sequential epochs'))],
+    'C13': [_VIEWS, ('bounded-determinism-fuzz', _fuzz_determinism), ('bounded-prefetch-determinism', _mk('parallel_equals_sequential', 'as for C04: seeded per-epoch reshuffles below prefetch / parallel map reproduce the sequential epochs'))],
     'C09': [('bounded-isolation-fuzz', _fuzz_isolation), ('bounded-snapshot-isolation', _mk('snapshot_isolation', 'from_dataset / new(src) / cache(lazy=False) of dict- and list-backed sources stored in pickle, copy, wu mode: isolated from later mutation of the original objects and of handed-out examples')),
             ('bounded-isolation-more', _mk('isolation_more', 'example shapes dict / tuple / namedtuple / list with mutable parts; pickle, copy, wu, memory and disk cache; mutation inside a running first-epoch loop, over items(), through a copy, after an aborted epoch, after the next example was requested; re-read by iteration, index, copy')),
             ('bounded-isolation', _mk('isolation', 'new/from_list in pickle, copy, wu mode and memory/disk cache; 7 access paths, miss and hit, nested in-place mutations'))],
     'C10': [_KEYLESS, ('bounded-cache-histories', _mk('cache_histories', 'all access histories of length 2 (3 thorough) over 17 operations on a 4-example cache with a freshly random upstream; memory threshold crossed after 0..4 stores'))],
     'C14': [_CATCH_MATRIX, ('bounded-catch', _mk('catch_epochs', 'sources of 0..7 examples, all failing subsets up to size 3, single type / tuple / subclass, values and items, two epochs, reshuffled upstream over 4 epochs, lazy/eager/FilterException selection'))],
-    'C15': [('bounded-split', _mk('split_exhaustive', 'all (n, k, i) with n <= 40 (300 thorough), k in [-1, n+2], shard indices {0, k-1, -1}'))],
+    'C15': [_VIEWS, ('bounded-split', _mk('split_exhaustive', 'all (n, k, i) with n <= 40 (300 thorough), k in [-1, n+2], shard indices {0, k-1, -1}'))],
     'C20': [('bounded-profiling-stage-counts', _mk('profiling_stage_counts', '10 linear element-wise pipelines (map / slice / shuffles / catch / prefetch(1) / cache / sort) over 3 and 6 (1,3,6,9) examples, two epochs: per-stage hits = examples delivered, profiled = identically seeded unprofiled twin')),
             ('bounded-profiling-transparency', _mk('profiling_transparency', 'the scenario pipelines of 13 stage classes (every third one in the quick tier), all observations incl. indices [-n-2, n+2), wrapped vs unwrapped, hit counts of the top wrapper'))],
     'C19': [('bounded-database', _mk('database', 'descriptions over 4 datasets (0..2 examples) and 6 aliases (overlapping ids, unknown and empty members), 0..3 datasets x 0..2 aliases, 1..3 merged parts, alias section in any part, extra top-level keys; requests: names, aliases, unknown, lists, repeats, after gc; DictDatabase, JsonDatabase, pickled JsonDatabase (every 4th description in the quick tier)'))],
-    'C18': [('bounded-sort-groupby', _mk('sort_group', 'all value sequences over {0,1,2} up to length 5 (7 thorough), reverse on/off, incomparable payloads, scalar and tuple group ids'))],
+    'C18': [_VIEWS, ('bounded-sort-groupby', _mk('sort_group', 'all value sequences over {0,1,2} up to length 5 (7 thorough), reverse on/off, incomparable payloads, scalar and tuple group ids'))],
 }
 
 EXTRA_INIT = [('bounded-intersperse-init', _intersperse_init)]
-EXTRA_KEYS = [('bounded-keyzip-init', _keyzip_init), ('bounded-concatenate-keys', _concat_keys), _KEYLESS]
+EXTRA_KEYS = [('bounded-keyzip-init', _keyzip_init), ('bounded-concatenate-keys', _concat_keys), _KEYLESS, _VIEWS]
 
 _C13_CLAUSES = {'seed-determinism', 'copy-determinism', 'frozen-stays-frozen', 'prefetch-determinism',
                 'copy-of-a-pipeline-sharing-one-reshuffle-object'}
@@ -273,7 +274,7 @@ def _shuffle_for(c13):
 
 
 EXTRA = {'C16': [('bounded-laws', _laws)], 'C08': [('bounded-demand', _effects), ('bounded-demand-fuzz', _fuzz_demand)], 'C17': [('bounded-bucket-iter', _bucket)],
-         'C12': [('bounded-shuffles', _shuffle_for(False))], 'C13': [('bounded-seed-determinism', _shuffle_for(True))]}
+         'C12': [('bounded-shuffles', _shuffle_for(False)), _VIEWS], 'C13': [('bounded-seed-determinism', _shuffle_for(True))]}
 
 
 def known_finding_of(cls, mismatch, findings):
